@@ -40,6 +40,19 @@ func spawn(fns ...func()) {
 	wg.Wait()
 }
 
+// drainErrs reads a worker's error channel until the worker's Stop closes it. The call to Errs() is made
+// by a client goroutine that runs next to the one that stops the worker, so on a loaded machine it can come
+// after the Stop: a stopped worker has no error channel (Errs() returns nil until Restart; property C14 states
+// "nil after Stop"), and a receive from a nil channel never returns - that would be the client program hanging
+// itself, not the library.
+func drainErrs(ch <-chan error) {
+	if ch == nil {
+		return
+	}
+	for range ch {
+	}
+}
+
 func rep(n int, f func(i int)) func() {
 	return func() {
 		for i := 0; i < n; i++ {
@@ -100,10 +113,7 @@ var racePrograms = []raceProg{
 		fns = append(fns, func() {
 			for range g.Errs() {
 			}
-		}, func() {
-			for range w.Errs() {
-			}
-		})
+		}, func() { drainErrs(w.Errs()) })
 		for _, h := range hs {
 			fns = append(fns, func() { h.Err(); h.Err(); h.Status() }, func() { h.Wait(); h.IsClosed(); h.Drain() }, func() { h.Close(); h.ID() })
 		}
@@ -240,10 +250,7 @@ var racePrograms = []raceProg{
 		p := varmq.NewDistributedQueue[int](led.Q())
 		spawn(rep(150, func(i int) { p.Add(i) }), rep(150, func(i int) { p.Add(1000+i, varmq.WithJobId(fmt.Sprint(i))) }),
 			rep(100, func(i int) { w1.NumPending(); w2.Metrics().Submitted(); p.NumPending() }),
-			func() {
-				for range w1.Errs() {
-				}
-			}, func() { time.Sleep(2 * time.Millisecond); w1.WaitAndStop() })
+			func() { drainErrs(w1.Errs()) }, func() { time.Sleep(2 * time.Millisecond); w1.WaitAndStop() })
 		w2.WaitAndStop()
 		return 500
 	}},
